@@ -38,12 +38,13 @@ type world struct {
 	other  aead.Cipher // a cipher under another secret
 	secure bool
 	scheme string
-	ups    []*upstream
+	ups    []*upstream // one rule kind each
+	mixed  []*upstream // several rule kinds each (rule permutations of Part B only)
 	signIn string
 }
 
 func (w *world) up(host string) *upstream {
-	for _, u := range w.ups {
+	for _, u := range append(append([]*upstream{}, w.ups...), w.mixed...) {
 		if u.host == host {
 			return u
 		}
@@ -62,8 +63,14 @@ func newWorld(idx int, secure bool) (*world, error) {
 		{host: "c06c-" + p + ".sso.test", kind: "addresses", rules: oracle.Rules{Addresses: []string{"carol@gamma.test", "dave@alpha.test"}}},
 		{host: "c06g-" + p + ".sso.test", kind: "groups", rules: oracle.Rules{Groups: []string{"grp-eng"}}},
 	}
+	w.mixed = []*upstream{
+		{host: "c06m1-" + p + ".sso.test", kind: "address+group", rules: oracle.Rules{Addresses: []string{"carol@gamma.test", "dave@alpha.test"}, Groups: []string{"grp-eng"}}},
+		{host: "c06m2-" + p + ".sso.test", kind: "domain+group", rules: oracle.Rules{Domains: []string{"alpha.test"}, Groups: []string{"grp-ops", "grp-eng"}}},
+		{host: "c06m3-" + p + ".sso.test", kind: "address+domain", rules: oracle.Rules{Addresses: []string{"carol@gamma.test"}, Domains: []string{"beta.test"}}},
+		{host: "c06m4-" + p + ".sso.test", kind: "address+domain+group", rules: oracle.Rules{Addresses: []string{"frank@delta.test"}, Domains: []string{"alpha.test"}, Groups: []string{"grp-eng"}}},
+	}
 	var specs []sut.UpstreamSpec
-	for i, u := range w.ups {
+	for i, u := range append(append([]*upstream{}, w.ups...), w.mixed...) {
 		specs = append(specs, sut.UpstreamSpec{Service: fmt.Sprintf("c06w%ds%d", idx, i), From: u.host,
 			AllowedEmailDomains: u.rules.Domains, AllowedEmailAddresses: u.rules.Addresses, AllowedGroups: u.rules.Groups})
 	}
@@ -221,7 +228,7 @@ func (p *perClass) add(m *map[string]int, k string) {
 func TestProp(t *testing.T) {
 	env := vh.GetEnv()
 	rep := vh.NewReport("C06", "exploration")
-	rep.Rule("Part A: flow starts over a raw socket with request targets from a grammar of 20 classes (//host, backslashes, encoded slashes/backslashes/dots, userinfo, URLs in queries, encoded controls, long, empty query/fragment, unicode, scheme-in-path, non-URL bytes, own endpoints, absolute-form own host plain/hostile/other host, random token mixes), 301s followed by hand, each started flow completed honestly; Part B: two browsers' flows on one upstream and 33 callback permutations (state source x cookie source x duplicates x replays x sealed-session confusion; plus, per re-encoding case, every textual variant of one side presented as the other side: padding, std alphabet, percent-escapes, space/tab, CR/LF, NUL, trailing dot, spare trailing bits, Unicode look-alikes, quotes, duplicated parameters, and case changes as a never-accepted control) crossed with authenticator answer, user class, error parameter, extra redirect parameters, request host (own / other upstream with different rules / unknown) on two stacks (http and https cookies). distinct = (target class, template or token-kind sequence, redirect hops, outcome) for Part A and (permutation, answer, user class, error, host relation, method, outcome) for Part B, counted only when the proxy answered the callback")
+	rep.Rule("Part A: flow starts over a raw socket with request targets from a grammar of 20 classes (//host, backslashes, encoded slashes/backslashes/dots, userinfo, URLs in queries, encoded controls, long, empty query/fragment, unicode, scheme-in-path, non-URL bytes, own endpoints, absolute-form own host plain/hostile/other host, random token mixes), 301s followed by hand, each started flow completed honestly; Part B: two browsers' flows on one upstream and 33 callback permutations (state source x cookie source x duplicates x replays x sealed-session confusion; upstreams with mixed rule kinds (address+group, domain+group, address+domain, all three, group only) crossed with 9 group-lookup answers of the authenticator and users passing / failing each e-mail rule; plus, per re-encoding case, every textual variant of one side presented as the other side: padding, std alphabet, percent-escapes, space/tab, CR/LF, NUL, trailing dot, spare trailing bits, Unicode look-alikes, quotes, duplicated parameters, and case changes as a never-accepted control) crossed with authenticator answer, user class, error parameter, extra redirect parameters, request host (own / other upstream with different rules / unknown) on two stacks (http and https cookies). distinct = (target class, template or token-kind sequence, redirect hops, outcome) for Part A and (permutation, answer, user class, error, host relation, method, outcome) for Part B, counted only when the proxy answered the callback")
 	rep.Assume("the fake authenticator answers exactly as scripted per code; codes are single-use only where the case says so")
 	rep.Assume("'issued by this proxy's OAuthStart' is ground truth: the harness knows every state/cookie value the running proxy handed out in the case; values the harness seals itself with the known secret are marked as such")
 	rep.Assume("the browser-side reading of Location follows the WHATWG URL rules for special schemes (backslash = slash, tab/CR/LF removed, C0/space trimmed, any number of slashes before the authority); the reader is checked against documented vectors before use")
@@ -309,6 +316,10 @@ func TestProp(t *testing.T) {
 			}
 		}
 		rep.Floor("b_reenc_refused_state_crlf", 10)
+		rep.Floor("b_rules_denied_and_refused", 100)
+		rep.Floor("b_rules_denied_and_refused_provider_failed", 50)
+		rep.Floor("b_rules_admitted_sessions", 100)
+		rep.Floor("b_rules_admitted_by_group_only_sessions", 10)
 		rep.Floor("b_reenc_refused_state_nul", 10)
 	}
 	if st := rep.Finish(); st == "violated" {
